@@ -21,6 +21,7 @@ func propC08(c *Ctx) {
 	c.ruleC08Scanner(m)
 	c.ruleUnquote()
 	c.ruleNormalisers()
+	c.ruleNextDirectiveRecognised("C08-NEXT-DIRECTIVE") // a tab after the keyword is as good as a blank
 	if c.R.Tier == "thorough" {
 		c.thoroughScanner(m, "C08")
 	}
@@ -67,6 +68,7 @@ func propC13(c *Ctx) {
 	c.ruleC13(m, t)
 	c.ruleFirstByteTables("C13-KEYWORD-PREFILTER")
 	c.ruleNextDirectiveRecognised("C13-NEXT-DIRECTIVE")
+	c.ruleResponseCodeGate("C13-RESPONSE-CODE-GATE")
 	a := c.ruleAnalysis(m, map[string]string{}, false)
 	if c.R.Tier == "thorough" {
 		c.thoroughScanner(m, "C13")
@@ -84,7 +86,7 @@ func propC12(c *Ctx) {
 	}
 	c.ruleC12(m)
 	// an Annotation lexeme must end at the first "*/": the same rule as C08-ANNOTATION-FORMS
-	c.R.Only = func(rule string) bool { return rule == "C08-ANNOTATION-FORMS" }
+	c.R.Only = func(rule string) bool { return rule == "C08-ANNOTATION-FORMS" || rule == "C08-COMMENT-RETURN" }
 	c.ruleC08Scanner(m)
 	c.R.Only = nil
 	c.ruleNextDirectiveRecognised("C12-NEXT-DIRECTIVE")
